@@ -22,7 +22,7 @@ import z3
 from .. import common
 from ..common import Inconclusive, log
 from ..mir import parse as P
-from ..mir.interp import Adt, Cell, Ctx, Explorer, Int, Interp, Opaque, Panic, Ref, Slice, Tup, VecV
+from ..mir.interp import Adt, Cell, Ctx, Explorer, Int, Interp, Opaque, Panic, Ref, Slice, Tup, VecV, set_path
 from ..mir import models as M
 from ..mir.models_bc import MODELS_BC, new_visitor
 from ..mir.runner import run_harnesses
@@ -417,7 +417,12 @@ def exec_reader(t, it, ctx, code):
         rd = args[0].cell.v
         for p in args[0].path:
             rd = rd.fields[p]
-        offsets.append(field(rd, "offset"))
+        off = field(rd, "offset")
+        # `offset += 1` per byte builds a term as deep as the code is long: fold it after every instruction
+        # (equivalence-preserving; keeps the cost of the later index computations linear)
+        off = Int(z3.simplify(off.t), off.ty)
+        args[0].cell.v = set_path(args[0].cell.v, tuple(args[0].path) + (list(rd.fnames).index("offset"),), off)
+        offsets.append(off)
         return rv
     it.hooks[fi.name] = h_inst
     it.hooks[fn.name] = h_next
